@@ -22,6 +22,9 @@ FAMILY = {
  'fo3':   ('C:Apex(A, O:Or(L1, L2, C:P(P1,P2)))',                         'orthogonal region with two plain-state siblings followed by a region sibling'),
  'fp3':   ('C:Apex(A, B, C:D(D1,D2))',                                 'plan fixture: three sub-states of the root, one of them a region'),
  'fdo':   ('C:Apex(A, O:Or(C:Md(M1, C:Nd(N1, C:Rd(R1,R2))), C:W(W1,W2)))',  'orthogonal region whose sub-regions nest composites three deep'),
+ 'fw5':   ('R:Apex(A, C:B(B1,B2), W2, W3, W4)',                        'width-5 resumable root whose second sub-state is a region: the LHalf/RHalf dispatch split has a left half with a non-first member'),
+ 'foo':   ('C:Apex(A, O:Or(O:Oi(X, Y), Q))',                            'orthogonal region nested directly inside an orthogonal region'),
+ 'fnn':   ('C:Apex(A, N:R(O:Oq(N:Na(A1,A2), N:Nb(B1,B2)), X))',       'random region holding an orthogonal region of two random regions'),
  'fnu':   ('C:Apex(A, U:U(U1, C:V(V1,V2)), S:Sx(S1,S2))',             'utilitarian region with a nested region, selectable sibling'),
 }
 QUICK = ['f5', 'f10', 'fsel', 'foroot']
@@ -60,7 +63,7 @@ def bounds(fx, nreq=1, budget=1):
            (r'^m_active|^uparent', T.maxdepth + 3)]
     return U, uws
 
-def fsm_case(pid, fx, name, defs, timeout=600, solvers=('kissat',), checks='none', witness=True, tv=False, meta=None, mem_gb=16, unwind_extra=(), nreq=1, budget=None):
+def fsm_case(pid, fx, name, defs, timeout=600, solvers=('kissat',), checks='none', witness=True, tv=False, meta=None, mem_gb=16, unwind_extra=(), nreq=1, budget=None, cover=False):
     if budget is None:
         b = [d for d in defs if d.startswith('CB_BUDGET=')]; budget = int(b[0].split('=')[1]) if b else 2
     n = [d for d in defs if d.startswith('NREQ=')]
@@ -71,8 +74,10 @@ def fsm_case(pid, fx, name, defs, timeout=600, solvers=('kissat',), checks='none
     if any(f in fx['opts'].get('features', []) for f in ('LOG_INTERFACE', 'VERBOSE_DEBUG_LOG')): d.append('HAVE_LOGGER')
     m = dict(fixture_term=fx['term'], fixture_note=FAMILY[fx['fam']][1], config={k: v for k, v in fx['opts'].items() if k != 'prefix'})
     m.update(meta or {})
-    return Case('%s.%s.%s' % (pid.lower(), fx['name'], name), fx, HARNESS, d, unwind=U, unwindset=list(unwind_extra) + uws, checks=checks,
-                solvers=solvers, timeout=timeout, meta=m, witness=witness, tv=tv, mem_gb=mem_gb)
+    c = Case('%s.%s.%s' % (pid.lower(), fx['name'], name), fx, HARNESS, d, unwind=U, unwindset=list(unwind_extra) + uws, checks=checks,
+             solvers=solvers, timeout=timeout, meta=m, witness=witness, tv=tv, mem_gb=mem_gb)
+    c.cover = cover
+    return c
 
 def tv_case(pid, fx):
     """translation validation of an FSM fixture: seeded random walk from the constructed instance, native only"""
